@@ -10,7 +10,8 @@
                                         form of a Go map.  Lookup is by key; map equality
                                         (reflect.DeepEqual) is then pointwise list equality.
    Go map iteration order               list order (every use in the routing code is
-                                        order-independent; see RouteProofs.match_header_perm)
+                                        order-independent: RouteProofs.header_loop_spec characterises the
+                                        loop by forallb/existsb over the argument list)
 
    Not covered by [value]: field arrays ([]interface{}) and nested tables; the
    property's spec leaves them unconstrained.  []byte (long string in the 0-9-1
